@@ -31,10 +31,6 @@ type ShardResult struct {
 // each, recycled per chunk) and merges their reports. In a worker process it
 // runs the assigned jobs and exits.
 func RunSharded(jobs []Job, budget time.Duration) ShardResult {
-	if w := os.Getenv("VERIF_WORKER"); w != "" {
-		runWorker(jobs, w)
-		os.Exit(0)
-	}
 	if only := os.Getenv("VERIF_ONLY"); only != "" {
 		var f []Job
 		for _, j := range jobs {
@@ -43,6 +39,10 @@ func RunSharded(jobs []Job, budget time.Duration) ShardResult {
 			}
 		}
 		jobs = f
+	}
+	if w := os.Getenv("VERIF_WORKER"); w != "" {
+		runWorker(jobs, w)
+		os.Exit(0)
 	}
 	nproc := runtime.NumCPU()
 	if s := os.Getenv("VERIF_PROCS"); s != "" {
